@@ -37,7 +37,7 @@ def _shift_place(pl, dl):
 def _shift(node, dl):
     """shift every place found anywhere inside a JSON node by dl locals"""
     if isinstance(node, dict):
-        if 'l' in node and isinstance(node['l'], int) and set(node.keys()) <= {'l', 'p'}:
+        if 'l' in node and isinstance(node['l'], int) and set(node.keys()) <= {'l', 'p', 'e', 'fo'}:
             _shift_place(node, dl)
             return
         for v in node.values():
@@ -70,6 +70,120 @@ def eligible(fb, root, cb, keep, also):
     return cb.file == root.file and cb.raw.get('vis') != 'Public'
 
 
+def _async_body(fb, crate, cb):
+    """for `async fn f(..)`: (operands of the coroutine aggregate built by f, the coroutine body) — else None"""
+    aggs = [st for blk in cb.blocks for st in blk['st'] if st.get('lhs') == {'l': 0} and st['rv']['k'] == 'agg' and st['rv'].get('ak') == 'coroutine']
+    if len(aggs) != 1:
+        return None
+    bs = [b for b in fb.bodies_of_item(crate, cb.nroot) if b.is_coroutine and b.id == aggs[0]['rv'].get('def')]
+    if len(bs) != 1:
+        return None
+    ops = []
+    for o in aggs[0]['rv']['ops']:
+        pl = o.get('cp') or o.get('mv')
+        if pl is None or pl.get('p') or not (1 <= pl['l'] <= cb.raw['argc']):
+            return None
+        ops.append(pl['l'] - 1)
+    return ops, bs[0], aggs[0]['rv'].get('def')
+
+
+def _whole_local(op):
+    pl = op.get('cp') or op.get('mv') if op else None
+    return pl['l'] if pl is not None and not pl.get('p') else None
+
+
+def _inline_async(blocks, locals_, vars_, i, t, cb, co):
+    """`f(args).await` where f is an async helper: every `Future::poll` of the future returned by this call is replaced by the helper's
+    coroutine body (its upvars bound to the call's arguments, its `return v` turned into `Poll::Ready(v)`). -> new block indices"""
+    ops, cbody, cdef = co
+    dest = t.get('dest')
+    if dest is None or dest.get('p') or 't' not in t:
+        return []
+    f = dest['l']
+    # _g = IntoFuture::into_future(move _f)
+    g = None
+    for blk in blocks:
+        tt = blk['term']
+        if tt and tt['k'] == 'call' and strip_generics(tt.get('f') or '') == 'core::future::into_future::IntoFuture::into_future' \
+                and tt['args'] and _whole_local(tt['args'][0]) == f and tt.get('dest') and not tt['dest'].get('p'):
+            g = tt['dest']['l']
+    if g is None:
+        return []
+    gs = {g}
+    changed = True
+    while changed:
+        changed = False
+        for blk in blocks:
+            for st in blk['st']:
+                if 'lhs' in st and not st['lhs'].get('p') and st['lhs']['l'] not in gs and st['rv']['k'] == 'use' \
+                        and _whole_local(st['rv']['op']) in gs:
+                    gs.add(st['lhs']['l'])
+                    changed = True
+    refs = set()
+    changed = True
+    while changed:
+        changed = False
+        for blk in blocks:
+            for st in blk['st']:
+                if 'lhs' not in st or st['lhs'].get('p') or st['lhs']['l'] in refs:
+                    continue
+                rv = st['rv']
+                src = rv['pl'] if rv['k'] == 'ref' else (rv['op'].get('cp') or rv['op'].get('mv') if rv['k'] == 'use' else None)
+                if src is None:
+                    continue
+                if (rv['k'] == 'ref' and not src.get('p') and src['l'] in gs) or (src['l'] in refs and all(e == '*' for e in src.get('p', []))):
+                    refs.add(st['lhs']['l'])
+                    changed = True
+    pins = set()
+    for blk in blocks:
+        tt = blk['term']
+        if tt and tt['k'] == 'call' and strip_generics(tt.get('f') or '').endswith('Pin::new_unchecked') and tt['args'] \
+                and _whole_local(tt['args'][0]) in refs and tt.get('dest') and not tt['dest'].get('p'):
+            pins.add(tt['dest']['l'])
+    polls = [j for j, blk in enumerate(blocks) if blk['term'] and blk['term']['k'] == 'call'
+             and strip_generics(blk['term'].get('f') or '') == 'core::future::future::Future::poll'
+             and blk['term']['args'] and _whole_local(blk['term']['args'][0]) in pins]
+    if not polls:
+        return []
+    added = []
+    for pj in polls:
+        pt = blocks[pj]['term']
+        dl, db = len(locals_), len(blocks)
+        locals_.extend(cbody.raw['locals'])
+        for v in copy.deepcopy(cbody.raw['vars']):
+            if 'pl' in v:
+                _shift_place(v['pl'], dl)
+            vars_.append(v)
+        cont, unwind, pdest = pt.get('t'), pt.get('u'), pt.get('dest')
+        new_blocks = copy.deepcopy(cbody.raw['blocks'])
+        for nb in new_blocks:
+            _shift(nb['st'], dl)
+            nt = nb['term']
+            if nt:
+                _shift(nt, dl)
+                _shift_blocks(nt, db)
+                if nt['k'] == 'return':
+                    if pdest is not None:
+                        nb['st'].append({'ln': nt.get('ln'), 'lhs': copy.deepcopy(pdest), 'inl': cb.nid,
+                                         'rv': {'k': 'agg', 'ak': 'adt', 'adt': 'core::task::poll::Poll', 'var': 'Ready', 'fields': ['0'],
+                                                'ops': [{'mv': {'l': dl}}]}})
+                    nb['term'] = {'ln': nt.get('ln'), 'k': 'goto', 't': cont, 'inl': cb.nid} if cont is not None else {'ln': nt.get('ln'), 'k': 'unreachable'}
+                elif nt['k'] == 'resume' and unwind is not None:
+                    nb['term'] = {'ln': nt.get('ln'), 'k': 'goto', 't': unwind}
+            blocks.append(nb)
+        blocks[pj]['st'].append({'ln': t.get('ln'), 'lhs': {'l': dl + 1}, 'inl': cb.nid,
+                                 'rv': {'k': 'agg', 'ak': 'coroutine', 'def': cdef, 'ops': [copy.deepcopy(t['args'][k]) for k in ops]}})
+        if len(pt['args']) > 1:
+            blocks[pj]['st'].append({'ln': t.get('ln'), 'lhs': {'l': dl + 2}, 'rv': {'k': 'use', 'op': copy.deepcopy(pt['args'][1])}, 'inl': cb.nid})
+        blocks[pj]['term'] = {'ln': pt.get('ln'), 'k': 'goto', 't': db, 'inl': cb.nid, 'inl_call': t}
+        added.extend(range(db, db + len(new_blocks)))
+    # the call that only built the future
+    blocks[i]['st'].append({'ln': t.get('ln'), 'lhs': copy.deepcopy(dest), 'inl': cb.nid,
+                            'rv': {'k': 'agg', 'ak': 'coroutine', 'def': cdef, 'ops': [copy.deepcopy(t['args'][k]) for k in ops]}})
+    blocks[i]['term'] = {'ln': t.get('ln'), 'k': 'goto', 't': t['t'], 'inl': cb.nid, 'inl_call': t}
+    return added
+
+
 def inlined(fb, body, keep=(), also=None, depth=4, crate=None):
     """-> Body (a new one if anything was inlined, else `body` itself)"""
     crate = crate or body.crate
@@ -97,6 +211,19 @@ def inlined(fb, body, keep=(), also=None, depth=4, crate=None):
         if not eligible(fb, body, cb, keep, also):
             continue
         if cb.raw['argc'] != len(t['args']):
+            continue
+        co = _async_body(fb, crate, cb)
+        if co is not None:
+            if raw is None:
+                raw = dict(body.raw)
+                raw['blocks'] = blocks = copy.deepcopy(body.raw['blocks'])
+                raw['locals'] = locals_ = list(body.raw['locals'])
+                raw['vars'] = copy.deepcopy(body.raw['vars'])
+                t = blocks[i]['term']
+            added = _inline_async(blocks, locals_, raw['vars'], i, t, cb, co)
+            if added:
+                extra.append(cb.nroot)
+                work.extend((j, d + 1, chain | {name}) for j in added)
             continue
         if raw is None:
             raw = dict(body.raw)
